@@ -100,11 +100,16 @@ def cross_process(h: Harness):
     # NAMED seeds (`NativeRandomSource("experiment-7")`: random.Random seeds itself from the text, the same in every process)
     for a, r, gname, s in (("gp", "tree", "plain", "experiment-7"), ("rs", "ge", "full", "fold-2/run-3"), ("hc", "sge", "full", "a"), ("opo", "dsge", "plain", "experiment-7")):
         configs.append([a, r, gname, s, {"gp": 30}.get(a, 12)])
+    # crossover followed at once by mutation (one environment runs with the library's loggers at DEBUG); production weights read through the
+    # order of the alternatives (tree-building deciders pick a production by its index)
+    for a, r, gname in (("gpx", "dsge", "plain"), ("gpx", "dsge", "full"), ("gpx", "sge", "plain"), ("gpx", "tree", "plain"),
+                        ("rs", "tree", "weighted"), ("gp", "ge", "weighted"), ("hc", "sge", "weighted"), ("gp", "tree-pi", "weighted")):
+        configs.append([a, r, gname, 6, {"gp": 30, "gpx": 40}.get(a, 12)])
     # a grammar from the library's own seeded generator of benchmark grammars
     for a, r in (("gp", "tree"), ("rs", "ge"), ("hc", "dsge")):
         configs.append([a, r, "synthetic", 8, {"gp": 30}.get(a, 12)])
     envs = [{"PYTHONHASHSEED": "0", "C08_PAD": "0", "C08_IMPORT_ORDER": "a"},
-            {"PYTHONHASHSEED": "1", "C08_PAD": "1000", "C08_IMPORT_ORDER": "b", "C08_HOLES": "1"},
+            {"PYTHONHASHSEED": "1", "C08_PAD": "1000", "C08_IMPORT_ORDER": "b", "C08_HOLES": "1", "C08_LOG": "debug"},
             {"PYTHONHASHSEED": "4242", "C08_PAD": "123457", "C08_IMPORT_ORDER": "a"}]
     if h.thorough:
         envs += [{"PYTHONHASHSEED": str(k), "C08_PAD": str(k * 7919 % 50000), "C08_IMPORT_ORDER": "ab"[k % 2]} for k in (2, 3, 5, 8, 13)]
